@@ -2,7 +2,7 @@
 UNIT_KIND = {}  # default 'verus'
 
 PROPS = {
-    'C07': {'units': ['U-VT'],
+    'C07': {'units': ['U-VT', 'U-RES'],
             'assumptions': ['callers outside the units (typer unification, function_calls::use_function) are not under contract'],
             'trusted': []},
     'C04': {'units': ['U-LABEL'],
@@ -14,7 +14,9 @@ PROPS = {
                             'that Poison::Error(MissingBraces/NonFinalLoopStatement/MisplacedLoopStatement) surfaces as E840/E800/E801 is the resolver\'s error collection'],
             'trusted': []},
     'C09': {'units': ['U-VT', 'U-LEXD'], 'assumptions': ['alpha lexer/parser literal handling and generator constant materialisation are not under contract'], 'trusted': []},
-    'C11': {'units': ['U-VT'], 'assumptions': [], 'trusted': []},
+    'C11': {'units': ['U-VT', 'U-ALIGN'], 'assumptions': ['permutation invariance (Compiler sorting, feature-gated) and cycle detection (found_container*) are not under contract',
+            'align_struct preconditions (struct or word with sized members; layout fits usize) are the typer\'s obligation, not verified'], 'trusted': []},
+    'C08': {'units': ['U-MUT'], 'assumptions': ['the mutability tree walk (Analyzable impls of mutability.rs) and the whole-program non-interference consequence are not under contract'], 'trusted': []},
     'C12': {'units': ['U-EXPORT'], 'assumptions': ['expand (import fix-point), Compiler multi-module state and split-equivalence are not under contract'], 'trusted': []},
     'C13': {'units': ['U-CODE', 'U-LEXD'], 'assumptions': ['alpha spans, rendering (ariadne) and run-to-run determinism are not under contract'], 'trusted': []},
     'C14': {'units': ['U-LEXD'], 'assumptions': ['the alpha lexer itself is not under contract, hence not the headline equivalence'], 'trusted': []},
@@ -34,7 +36,7 @@ NOT_APPLICABLE = {
 }
 # properties planned but not yet claimed are listed here until their check exists
 PENDING = {
-'C08': 'check under construction (U-MUT)',
+
     'C16': 'check under construction (U-PARSE layout)',
 }
 for _p, _r in PENDING.items():
@@ -58,6 +60,8 @@ LEVELS = {
             'note': 'trusted: Verus+Z3, slicer/splicer, rewrite rules, MaybeUninit/Vec spare-capacity model (std safety contract), Vec::with_capacity gives exactly n, allocation never fails, unbounded stack'},
     'C17': {'text': 'Proof (Verus, unbounded over all node sequences) that build_header/build_header_nodes/convert_for_head output exactly the public nodes in order, pub flag cleared, function bodies removed, node ids shifted by the number of skipped nodes, declarations = declaration nodes in order - under the tree invariant (zones well bracketed, no reference crosses a zone), which is the parser\'s obligation and is a precondition here.',
             'note': 'trusted: Verus+Z3, slicer/splicer, rules R4/R13/R17/R18/R19, enumset bit model, U24 conversions (slice patterns; proved separately by Kani when U-DIG lands), MaybeUninit/Vec model'},
+    'C08': {'text': 'PARTIAL: proof of needs_outer_mutability (outer mutability needed unless the reference passes through a pointer), mutability::Analyzer::{declare_variable, use_variable} (E530 iff known, mutated and declared immutable; unknown => poisoned; exactly one key updated; std HashMap through vstd model) and can_hint_missing_address (E513 hint). The tree walk setting the mutability bits and the whole-program consequence are NOT under contract.',
+            'note': 'trusted: Verus+Z3, slicer/splicer, vstd HashMap axioms, derived Clone/PartialEq specs, opaque Location'},
     'C09': {'text': 'PARTIAL: proof that min_i128/max_u128 are exactly -2^(bits-1) / 2^(bits-1)-1 / 2^bits-1 for every integer type; delta lexer: decimal/hex digit values, the eleven integer suffixes (E141 otherwise), overflow-free accumulation with E140 on overflow.',
             'note': 'trusted: Verus+Z3, slicer/splicer; usize/pointers are 64-bit as the code itself assumes'},
     'C11': {'text': 'PARTIAL: proof that the type-legality predicates of value_type.rs (is_wellformed, can_be_*) equal a declarative spec of the E350-E359 shapes for every type of any nesting depth; permutation invariance and cycle detection are NOT under contract.',
